@@ -29,7 +29,7 @@ static const uint8_t G_MAIN_SYM[8] = "main";
 /* ---- ghost ---- */
 static int g_hit; static uint32_t g_cached;               /* the cache lookup of this call finds g_cached (INV: < count) */
 static int g_lookups; static JanetTable *g_lk_tab; static Janet g_lk_key; static int g_lk_raw;
-static int g_puts; static JanetTable *g_put_tab[3]; static Janet g_put_key[3], g_put_val[3];
+static int g_puts; static JanetTable *g_put_tab[4]; static Janet g_put_key[4], g_put_val[4];
 static int g_user_nonkw;                                  /* the user's table has a key that is not a keyword */
 static int g_new_is_clone;
 static JanetKV g_user_kv[2];                              /* slots of the user's grammar table */
@@ -73,7 +73,7 @@ Janet h_table_get_ex(JanetTable *t, Janet key, JanetTable **which) {
   return v;
 }
 void h_table_put(JanetTable *t, Janet key, Janet value) {
-  __CPROVER_assert(g_puts < 3, "harness: put log large enough");
+  __CPROVER_assert(g_puts < 4, "harness: put log large enough");
   g_put_tab[g_puts] = t; g_put_key[g_puts] = key; g_put_val[g_puts] = value; g_puts++;
   /* INV at every write of a grammar scope: a non-keyword key is bound only to the index of the rule being compiled */
   __CPROVER_assert(key.type == JANET_KEYWORD || (value.type == JANET_NUMBER && value.as.number == (double) g_n0),
